@@ -7,6 +7,7 @@ package main
 import (
 	"fmt"
 	"math/rand"
+	"strings"
 	"testing"
 	"time"
 
@@ -14,6 +15,8 @@ import (
 	"git.torproject.org/pluggable-transports/snowflake.git/v2/common/namematcher"
 	vh "git.torproject.org/pluggable-transports/snowflake.git/v2/common/zzverif"
 )
+
+const c06DefaultBridge = `{"displayName":"default", "webSocketAddress":"wss://snowflake.torproject.net/", "fingerprint":"2B280B23E1107BB62ABFC40DDCC8824814F80A72"}` + "\n"
 
 var c06bparts = []string{"a", "b", ".", "net", "snowflake", "torproject", "-", "x", ""}
 
@@ -52,13 +55,30 @@ func TestVerifC06Broker(t *testing.T) {
 	defer r.Finish()
 	rng := r.Rng
 	nPolls := 0
+	var ctx *BrokerContext
+	var curAllowed, curPresumed string
 	for i := 0; i < r.N(1500, 20000); i++ {
 		h := c06bhost(rng)
 		allowed, presumed, pattern := c06bpattern(rng, h), c06bpattern(rng, h), c06bpattern(rng, h)
 		nonSupported := rng.Intn(3) == 0
-		ctx := NewBrokerContext(NullLogger())
-		ctx.allowedRelayPattern = allowed
-		ctx.presumedPatternForLegacyClient = presumed
+		// a broker keeps its configuration for a while: several polls with different patterns and
+		// legacy flags are judged by the same context, reconfigured through the public path
+		if ctx == nil || rng.Intn(6) == 0 {
+			ctx = NewBrokerContext(NullLogger())
+			curAllowed, curPresumed = allowed, presumed
+			if err := ctx.InstallBridgeListProfile(strings.NewReader(c06DefaultBridge), allowed, presumed); err != nil {
+				t.Fatal(err)
+			}
+		} else if rng.Intn(5) == 0 {
+			curAllowed, curPresumed = allowed, presumed
+			if err := ctx.InstallBridgeListProfile(strings.NewReader(c06DefaultBridge), allowed, presumed); err != nil {
+				t.Fatal(err)
+			}
+		}
+		allowed, presumed = curAllowed, curPresumed
+		if rng.Intn(4) == 0 {
+			pattern = []string{"", "$", "^"}[rng.Intn(3)] // what a proxy without a restriction sends
+		}
 		got := ctx.CheckProxyRelayPattern(pattern, nonSupported)
 		ns := "0"
 		if nonSupported {
@@ -82,6 +102,14 @@ func TestVerifC06Broker(t *testing.T) {
 		// the real poll path, for a sample: a rejected poll gets the explicit status at once and is never registered
 		if i%10 == 0 && nPolls < r.N(150, 1500) {
 			nPolls++
+			// the real poll path on a fresh context with the same configuration, preceded by the
+			// same kind of earlier traffic (an unrestricted proxy's poll)
+			ctx := NewBrokerContext(NullLogger())
+			if err := ctx.InstallBridgeListProfile(strings.NewReader(c06DefaultBridge), allowed, presumed); err != nil {
+				t.Fatal(err)
+			}
+			ctx.CheckProxyRelayPattern("", false)
+			ctx.CheckProxyRelayPattern(pattern, !nonSupported)
 			ipc := &IPC{ctx}
 			go ctx.Broker()
 			var body []byte
